@@ -310,8 +310,11 @@ func execIsolated(prop string, tr *Trace) *Result {
 // minimise shrinks a failing trace while the same violation class persists.
 func minimise(ps *propSpec, tr *Trace, class string, maxExec int) (*Trace, int) {
 	execs := 0
+	began := time.Now()
 	fails := func(c *Trace) (bool, int) {
-		if execs >= maxExec {
+		// bounded in executions and in wall time (a violation that makes every
+		// execution slow - a hang caught by a watchdog - must not stall the report)
+		if execs >= maxExec || (execs > 3 && time.Since(began) > 300*time.Second) {
 			return false, -1
 		}
 		execs++
